@@ -839,9 +839,11 @@ where
 	let parent_key_id = wallet.parent_key_id();
 
 	let key_id = match key_id {
-		Some(key_id) => match keys::retrieve_existing_key(wallet, key_id, None) {
-			Ok(k) => k.0,
-			Err(_) => keys::next_available_key(wallet, keychain_mask)?,
+		// a mining node may re-request a coinbase naming the candidate it replaces: only a
+		// still unconfirmed coinbase record may be overwritten, anything else gets a new key
+		Some(key_id) => match wallet.get(&key_id, &None) {
+			Ok(ref o) if o.is_coinbase && o.status == OutputStatus::Unconfirmed => o.key_id.clone(),
+			_ => keys::next_available_key(wallet, keychain_mask)?,
 		},
 		None => keys::next_available_key(wallet, keychain_mask)?,
 	};
